@@ -8,6 +8,7 @@ import H264.NalSrc
 import H264.Render2
 import H264.Derived
 import H264.SeiPayloads
+import H264.Render3
 import H264.Context
 /-! Line-protocol driver: executes the model on the same case lines as the Rust harness and prints the same
 canonical observation per line (see /verif/harness/src/run.rs for the formats). Core-only imports: links as a
@@ -200,7 +201,7 @@ def nalOn (st : St) (chunks : List (List UInt8)) (complete : Bool) : St × Strin
   else (st, s!"other:{ty}")
 
 /-! ### bits -/
-def bitsRun (bits : List Bool) (ops : List String) : String :=
+def bitsRun (src : Src) (ops : List String) : String :=
   let (_, out) := ops.foldl (fun (acc : Option Src × List String) op =>
     match acc with
     | (none, o) => (none, "-" :: o)
@@ -215,7 +216,7 @@ def bitsRun (bits : List Bool) (ops : List String) : String :=
       else if op = "seifinish" then fin (finishSei s)
       else if op.startsWith "skip" then cont (fun _ => "ok") (readBits "f" (op.drop 4).toString.toNat! s)
       else cont toString (readBits "f" (op.drop 1).toString.toNat! s))
-    (some ⟨bits, .eof⟩, [])
+    (some src, [])
   " ".intercalate out.reverse
 
 /-! ### derived values -/
@@ -252,41 +253,18 @@ def ctxOps (ops : List String) : String :=
   " ".intercalate out.reverse
 
 /-! ### SEI payloads -/
-open SeiPayload in
-def renderSmh : SecMinHour → String
-  | .none => "None" | .s s => s!"S({s})" | .sm s m => s!"SM({s}, {m})" | .smh s m h => s!"SMH({s}, {m}, {h})"
-def ctTypeName : Nat → String | 0 => "Progressive" | 1 => "Interlaced" | 2 => "Unknown" | _ => "Reserved"
-def countingName : Nat → String
-  | 0 => "NoDroppingNoOffset" | 1 => "NoDropping" | 2 => "DroppingIndividualZero" | 3 => "DroppingIndividualMax"
-  | 4 => "DroppingTwoLowest" | 5 => "DroppingIndividual" | 6 => "Dropping" | n => s!"Reserved({n})"
-def picStructName : Nat → String
-  | 0 => "Frame" | 1 => "TopField" | 2 => "BottomField" | 3 => "TopFieldBottomField" | 4 => "BottomFieldTopField"
-  | 5 => "TopFieldBottomFieldTopFieldRepeated" | 6 => "BottomFieldTopFieldBottomFieldRepeated" | 7 => "FrameDoubling"
-  | 8 => "FrameTripling" | n => s!"Reserved({n})"
-open SeiPayload Render in
-def renderClock (c : ClockTimestamp) : String :=
-  s!"ClockTimestamp \{ ct_type: {ctTypeName c.ctType}, nuit_field_based_flag: {b c.nuitFieldBasedFlag}, counting_type: {countingName c.countingType}, discontinuity_flag: {b c.discontinuityFlag}, cnt_dropped_flag: {b c.cntDroppedFlag}, n_frames: {c.nFrames}, smh: {renderSmh c.smh}, time_offset: {opt int c.timeOffset} }"
-open SeiPayload Render in
-def renderPicTiming (p : PicTiming) : String :=
-  let delays := opt (fun (d : Nat × Nat) => s!"Delays \{ cpb_removal_delay: {d.1}, dpb_output_delay: {d.2} }") p.delays
-  let ps := opt (fun (x : PicStruct) => s!"PicStruct \{ pic_struct: {picStructName x.picStruct}, clock_timestamps: {list (opt renderClock) x.clockTimestamps} }") p.picStruct
-  s!"PicTiming \{ delays: {delays}, pic_struct: {ps} }"
-open SeiPayload Render in
-def renderBp (p : BufferingPeriod) : String :=
-  let l := opt (list fun (x : InitialCpbRemoval) => s!"InitialCpbRemoval \{ initial_cpb_removal_delay: {x.delay}, initial_cpb_removal_delay_offset: {x.offset} }")
-  s!"BufferingPeriod \{ nal_hrd_bp: {l p.nalHrdBp}, vcl_hrd_bp: {l p.vclHrdBp} }"
-
+open Render in
 def picTiming (sps payload : List UInt8) : String :=
   match Sps.parseSps (NalSrc.srcOfBytes sps) with
   | .error _ => "sps:Err"
   | .ok (s, _) =>
     match SeiPayload.readPicTiming s (NalSrc.srcOfBytes payload) with
-    | .ok (p, _) => s!"Ok({renderPicTiming p})"
+    | .ok (p, _) => s!"Ok({Render.renderPicTiming p})"
     | .error _ => "Err"
 
 def bufferingPeriod (st : St) (payload : List UInt8) : String :=
   match SeiPayload.readBufferingPeriod (Ctx.get st.sps) (NalSrc.srcOfBytes payload) with
-  | .ok (p, _) => s!"Ok({renderBp p})"
+  | .ok (p, _) => s!"Ok({Render.renderBp p})"
   | .error _ => "Err"
 
 def t35 (payload : List UInt8) : String :=
@@ -295,15 +273,32 @@ def t35 (payload : List UInt8) : String :=
   | .ok (.extended e) rest => s!"Ok(ext:{e},{hexOf rest})"
   | .notEnoughData e a => s!"NotEnoughData({e},{a})"
 
-/-! ### stream: Annex B reader → accumulator (always Buffer) → parse every complete NAL -/
-def stream (ops : List String) : String :=
+/-! ### stream: Annex B reader → accumulator → handler policy → parse -/
+/-- the handler: its answer, what it prints, and its context afterwards. Policy `B`: always Buffer and parse complete
+NALs; policy `H`: slice NALs are tried on every invocation, Buffer while the header would block, else Ignore -/
+def streamHandler (policy : String) (st : St) (inv : Accum.Invocation) : Accum.Interest × Option String × St :=
+  let chunks := inv.head :: inv.tail
+  let hdr : Nat := match inv.head with | b :: _ => b.toNat | [] => 255
+  let ty := if hdr ≥ 128 then 255 else hdr % 32
+  if policy = "H" ∧ (ty = 1 ∨ ty = 5) then
+    let (_, res) := nalOn st chunks inv.complete
+    if res.endsWith "WouldBlock" then (.buffer, none, st)
+    else (.ignore, some (hexOf inv.bytes ++ "=" ++ res.replace " " "_"), st)
+  else if inv.complete then
+    let (st', res) := nalOn st chunks true
+    (.buffer, some (hexOf inv.bytes ++ "=" ++ res.replace " " "_"), st')
+  else (.buffer, none, st)
+
+def stream (policy : String) (ops : List String) : String :=
   let calls := (annexbOps ops).flatten
-  let invs := (Accum.run Accum.init (calls.map fun c => ⟨c.bufs, c.fin, .buffer⟩) []).2
-  let (_, out) := invs.foldl (fun (acc : St × List String) inv =>
-    if inv.complete then
-      let (st', o) := nalOn acc.1 (inv.head :: inv.tail) true
-      (st', (hexOf inv.bytes ++ "=" ++ o.replace " " "_") :: acc.2)
-    else acc) (({} : St), [])
+  let (_, _, out) := calls.foldl (fun (acc : Accum.Acc × St × List String) c =>
+    let (a, st, outs) := acc
+    let (a', inv?) := Accum.frag a c.bufs c.fin (fun inv => (streamHandler policy st inv).1)
+    match inv? with
+    | none => (a', st, outs)
+    | some inv =>
+      let (_, o, st') := streamHandler policy st inv
+      (a', st', match o with | some s => s :: outs | none => outs)) (Accum.init, ({} : St), [])
   " ".intercalate out.reverse
 
 def step (st : St) (line : String) : St × String :=
@@ -317,13 +312,15 @@ def step (st : St) (line : String) : St × String :=
   | ["avcc", h] => (st, avcc (bytesOfHex h))
   | ["avcc"] => (st, avcc [])
   | ["reset"] => ({}, "ok")
+  | ["full", _] => (st, "ok")
   | ["sps", h] => spsOn st (NalSrc.srcOfBytes (bytesOfHex h))
   | ["sps"] => spsOn st (NalSrc.srcOfBytes [])
   | ["pps", h] => ppsOn st (NalSrc.srcOfBytes (bytesOfHex h))
   | ["pps"] => ppsOn st (NalSrc.srcOfBytes [])
   | ["slice", hb, h] => let hdr := natOfHex hb; (st, if hdr ≥ 128 then "hdr:err" else sliceOn st hdr (NalSrc.srcOfBytes (bytesOfHex h)))
   | ["slice", hb] => let hdr := natOfHex hb; (st, if hdr ≥ 128 then "hdr:err" else sliceOn st hdr (NalSrc.srcOfBytes []))
-  | "bits" :: hx :: ops => (st, bitsRun (if hx = "-" then [] else NalSrc.bitsOfBytes (bytesOfHex hx)) ops)
+  | "bits" :: hx :: ops => (st, bitsRun ⟨(if hx = "-" then [] else NalSrc.bitsOfBytes (bytesOfHex hx)), .eof⟩ ops)
+  | "nalbits" :: chunks :: complete :: ops => (st, bitsRun (NalSrc.srcOfNal (chunksOf chunks) (complete = "1")) ops)
   | ["nal", chunks, complete] => nalOn st (chunksOf chunks) (complete = "1")
   | ["derived", h] => (st, derived (NalSrc.srcOfBytes (bytesOfHex h)))
   | ["derived"] => (st, derived (NalSrc.srcOfBytes []))
@@ -334,7 +331,7 @@ def step (st : St) (line : String) : St × String :=
   | ["bp"] => (st, bufferingPeriod st [])
   | ["t35", p] => (st, t35 (bytesOfHex p))
   | ["t35"] => (st, t35 [])
-  | "stream" :: ops => (st, stream ops)
+  | "stream" :: policy :: ops => (st, stream policy ops)
   | ["hdr", b] => let b := b.toNat!; (st, if b ≥ 128 then "err" else s!"ok {b / 32 % 4} {b % 32} back={b}")
   | ["unittype", b] => let b := b.toNat!; (st, if b > 31 then "err" else s!"ok {b}")
   | ["profile", b] => (st, b)
